@@ -11,6 +11,12 @@ LEVEL_TEXT = ('Static lockstep analysis of the parallel point / log-likelihood /
 
 
 def run(ctx):
+    from ..persist import rule_P12k
+    rule_P12k(ctx)      # ordered members are never rebuilt from the (alphabetical) group names
+    from ..pathrules import rule_T2_publish
+    rule_T2_publish(ctx)      # a half-finished checkpoint update is never published
+    from ..effects import rule_F4
+    rule_F4(ctx)      # proposal streams are a function of the persisted generator state only
     rule_L1_sampler(ctx, {'rows', 't', 'shell'})
     rule_L2_move(ctx)
     rule_L3_L4(ctx)
